@@ -409,6 +409,14 @@ func propC05(run *Run, n int) {
 				run.Count("setkeys:member-written-twice")
 			}
 		}
+		if i%40 == 0 {
+			sa, sb := sameValueTwoKeysPair(r)
+			run.Count("setkeys:same-value-under-two-set-keys")
+			addC05Case(run, OptKeys("a", "b"), "SetKeys(a,b)-same-value", sa, sb)
+			sc := sa.Clone()
+			permuteDeep(r, sc, false)
+			addC05Case(run, OptKeys("a", "b"), "SetKeys(a,b)-same-value", sa, sc)
+		}
 		if r.Chance(1, 8) && !ch.o.Has("K") {
 			// numbers one ulp apart / exactly eps apart / just beyond eps (also with no Precision option: eps = 0)
 			b = a.Clone()
@@ -728,6 +736,14 @@ func propC03(run *Run, n int) {
 			t := perturb(r, cfg, a, b)
 			if k == 0 && r.Chance(1, 2) {
 				t = a.Clone()
+			}
+			if !aliasRun && k == 2 && r.Chance(1, 3) {
+				// the target differs from a only by numbers moved by one ulp / 1e-13 / 1e-12: a strict expectation compares
+				// exactly (Patch passes no Precision)
+				t = a.Clone()
+				if boundaryJitter(r, t, 0) > 0 {
+					run.Count("target:numbers-moved-by-an-ulp")
+				}
 			}
 			if aliasRun && k > 0 {
 				// the target differs from a only by values of another type with the SAME HASH CODE as the one expected
@@ -1630,7 +1646,14 @@ func addC06CaseO(run *Run, o OptSet, wrap string, a, b *Val, pre int, w func(*Va
 func propC07(run *Run, n int) {
 	run.rule = "random (a, b) x {list, SET, MULTISET, SetKeys, MERGE}; per hunk facts and every leave-one-out sub-diff applied by the implementation; non-trivial = at least two hunks (leave-one-out is meaningful); distinct = distinct (options, a, b)"
 	r := NewRng(run.Seed)
-	choices := coreOptChoices()[:10]
+	all := coreOptChoices()
+	choices := all[:10]
+	for _, ch := range all {
+		// the explicit Precision(0) the command line always passes
+		if strings.HasSuffix(ch.label, "Precision(0)") {
+			choices = append(choices[:len(choices):len(choices)], ch)
+		}
+	}
 	for k := 0; k < 2; k++ {
 		a, b := largePair(r, k == 1)
 		run.Count("large-arrays")
